@@ -59,7 +59,7 @@ def e_whole(O):
 def answer_passed_unchanged(O):
     import z3
     from ..sym import bv64
-    R = rep()
+    R = rep() if not isinstance(O, dri.WithRep) else O._rep
     fn = O.find("::handle_io")
     eng = O.engine()
     eng.keep_events(*dri.KEEP)
